@@ -6,7 +6,7 @@ PAM = "kani/jxl-bitstream/parse.rs"
 
 K("ct.box_header", ["C10", "C09", "C01"], "jxl-bitstream", BH, BHM, "box_header_contract", "complete",
   ["ContainerBoxHeader::parse", "ContainerBoxHeader::box_type", "ContainerBoxHeader::box_size", "ContainerBoxHeader::is_last"],
-  "for all byte values and all buffer lengths 0..=18 (every 16-byte prefix + 2 trailing bytes): parse == spec_box_header "
+  "for all byte values and all buffer lengths 0..=18 (every 16-byte prefix + 2 trailing bytes; parse inspects at most 16 bytes): parse == spec_box_header "
   "(18181-2 9.1 / ISOBMFF: u32 size + 4-byte type; size==1 -> u64 largesize, 16-byte header; size==0 -> to end of file, is_last); "
   "NeedMoreData iff the buffer is shorter than the header needs; InvalidBox iff the declared size is smaller than the header; "
   "payload = size - header; accessors return the fields; no panic")
@@ -36,7 +36,9 @@ K("ct.step_codestream", ["C10", "C01", "C09"], "jxl-bitstream", PA, PAM, "step_c
 K("ct.step_aux_plain", ["C10", "C01", "C09"], "jxl-bitstream", PA, PAM, "step_aux_box_plain", _B % "InAuxBox, box type != brob", _FNS, _STEP)
 K("ct.step_aux_4", ["C10", "C01", "C09"], "jxl-bitstream", PA, PAM, "step_aux_box_4",
   "bounded:remaining feed buffer of exactly 4 bytes (all Inv states in phase InAuxBox incl. brob with read/unread type, all byte values)", _FNS, _STEP)
-# the two general harnesses: every unrolled iteration of emit_single explores all arms (niche-encoded discriminant) -> minutes
+# the two general harnesses: CBMC cannot constant-fold DetectState's niche-encoded discriminant, so each of the 5 unrolled
+# iterations of emit_single explores every arm: 3-7 min each (measured 404 s / 440 s on a loaded box) -> thorough.
+# Quick-tier stand-ins: ct.step_aux_plain + ct.step_aux_4 for InAuxBox; none for WaitingBoxHeader (no cheaper case split exists).
 K("ct.step_box_header", ["C10", "C01", "C09"], "jxl-bitstream", PA, PAM, "step_box_header", _B % "WaitingBoxHeader", _FNS, _STEP,
   tier="thorough", timeout=1200)
 K("ct.step_aux_box", ["C10", "C01", "C09"], "jxl-bitstream", PA, PAM, "step_aux_box", _B % "InAuxBox (all types incl. brob)", _FNS, _STEP,
